@@ -18,7 +18,7 @@ cd "$W/verif" || exit 2
 out=$W/result.tsv; : > "$out"
 while read -r name patch props; do
   [ -z "$name" ] && continue
-  git -C "$W/repo" apply "$patch" 2>/dev/null || git -C "$W/repo" apply --3way "$patch" 2>/dev/null || { echo "$name - NOT-APPLICABLE" >> "$out"; git -C "$W/repo" checkout -q -- . ; git -C "$W/repo" clean -qfd src; continue; }
+  git -C "$W/repo" apply "$patch" 2>/dev/null || git -C "$W/repo" apply --3way "$patch" 2>/dev/null || { echo "$name - NOT-APPLICABLE" >> "$out"; git -C "$W/repo" reset -q --hard HEAD; git -C "$W/repo" clean -qfd src; continue; }
   for prop in $props; do
     log=$W/$name-$prop.log
     ./check "$prop" --tier quick > "$log" 2>&1; rc=$?
